@@ -387,8 +387,30 @@ def _kind(prog, f, expr, depth=0):
             return 'str'
         if nm in ('bytes', 'encode', 'tostring', 'b64encode'):
             if nm == 'tostring':
-                return 'unknown'
+                # lxml: bytes unless encoding='unicode' / str is requested
+                for k_ in expr.keywords:
+                    if k_.arg == 'encoding':
+                        if isinstance(k_.value, ast.Constant) and \
+                                k_.value.value == 'unicode' or (
+                                isinstance(k_.value, ast.Name) and
+                                k_.value.id in ('str', 'unicode')):
+                            return 'str'
+                        return 'bytes'
+                return 'bytes'
             return 'bytes'
+        # a function of the repository: the kind of what it returns
+        if depth < 3:
+            tgt = None
+            try:
+                tgt = prog.resolve_expr(f.module, expr.func)
+            except Exception:
+                tgt = None
+            if isinstance(tgt, FuncInfo):
+                ks = {_kind(prog, tgt, r.value, depth + 1)
+                      for r in walk_no_defs(tgt.node)
+                      if isinstance(r, ast.Return) and r.value is not None}
+                if len(ks) == 1:
+                    return ks.pop()
         if nm == 'decode':
             return 'str'
         if nm == 'join' and isinstance(expr.func, ast.Attribute):
@@ -420,9 +442,11 @@ def rule_r3(prog, res, tier):
     for name in ('handle_error', 'handle_rpc', 'handle_wsdl_request'):
         f = _m(prog, name)
         for node in walk_no_defs(f.node):
+            rv = _body_object(node.value, None) if isinstance(
+                node, ast.Return) and node.value is not None else None
             if isinstance(node, ast.Return) and isinstance(
-                    node.value, (ast.List, ast.Tuple)):
-                for e in node.value.elts:
+                    rv, (ast.List, ast.Tuple)):
+                for e in rv.elts:
                     n_chunks += 1
                     k = _kind(prog, f, e)
                     where = '%s:%d' % (f.module.relpath, node.lineno)
@@ -456,6 +480,31 @@ def rule_r3(prog, res, tier):
                 else:
                     res.ob('R3', where, inst, 'ok' if k == 'bytes' else
                            'unclassified')
+    # chunks stored into ctx.out_string by the HTTP helpers
+    hm = prog.module('spyne.server.http')
+    for f in hm.functions.values():
+        for node in walk_no_defs(f.node):
+            if isinstance(node, ast.Assign) and any(
+                    isinstance(t, ast.Attribute) and t.attr == 'out_string'
+                    for t in node.targets) and isinstance(
+                    node.value, (ast.List, ast.Tuple)):
+                for e in node.value.elts:
+                    n_chunks += 1
+                    k = _kind(prog, f, e)
+                    where = '%s:%d' % (hm.relpath, node.lineno)
+                    inst = '%s stores chunk %s : %s' % (f.qualname,
+                                                        unparse(e)[:40], k)
+                    if k == 'str':
+                        res.ob('R3', where, inst, 'VIOLATED')
+                        res.finding('R3', '%s|chunk|%s' % (
+                            f.qualname, unparse(e)[:40]), where,
+                            '%s puts a text (str) chunk into ctx.out_string '
+                            '(%s): the WSGI body must be bytes, and '
+                            'Content-Length would count characters' % (
+                                f.qualname, unparse(e)[:50]))
+                    else:
+                        res.ob('R3', where, inst, 'ok' if k == 'bytes' else
+                               'unclassified', nontrivial=(k == 'bytes'))
     res.floor('R3', 'literal chunks', n_chunks, 1)
     res.floor('R3', 'out_string joins', n_joins, 1)
     # header values
@@ -1145,6 +1194,84 @@ def rule_r7(prog, res):
               n, 5)
 
 
+# --------------------------------------------------------------------- R8
+def rule_r8(prog, res):
+    res.rule('R8', 'the WSDL endpoint closes its context exactly once on '
+             'every path, through the returned iterator; the body iterator '
+             'is built from the object that is finally sent')
+    f = _m(prog, 'handle_wsdl_request')
+
+    def classify(call):
+        nm = call_name(call)
+        d = dotted(call.func) or ''
+        if nm == 'start_response':
+            return ('SR',), False
+        if nm == 'close' and d.endswith('ctx.close'):
+            return ('CLOSE',), False
+        if nm == '_ClosingIterator':
+            fin = [unparse(a) for a in call.args[1:]] + [
+                unparse(k.value) for k in call.keywords]
+            if any(x.endswith('.close') or 'close()' in x or
+                   '__finalize' in x for x in fin):
+                return ('DEFER',), False
+        return (), False
+    seqs = SeqFlow(classify).run(f.node)
+    paths = seqs.get(RETURN, set())
+    res.floor('R8', 'distinct event sequences of handle_wsdl_request', len(paths), 1)
+    bad = []
+    for q in sorted(paths):
+        closes = q.count('CLOSE') + q.count('DEFER')
+        eager = 'CLOSE' in q
+        ok = closes == 1 and not eager and q.count('SR') == 1
+        res.ob('R8', f.where, 'handle_wsdl_request path: %s' % (
+            ' > '.join(q) or '(no events)'), 'ok' if ok else 'VIOLATED')
+        if not ok:
+            bad.append(q)
+    for q in bad[:3]:
+        res.finding('R8', 'WsgiApplication.handle_wsdl_request|close|%s' %
+                    '>'.join(q), f.where, 'on the path [%s] the context is '
+                    'closed %d time(s)%s: it must be closed exactly once, by '
+                    'the returned iterator, after the body was handed over' %
+                    (' > '.join(q), q.count('CLOSE') + q.count('DEFER'),
+                     ', eagerly before the body is returned' if 'CLOSE' in q
+                     else ''))
+    # handle_rpc / handle_error: no re-binding of the body between the
+    # creation of the iterator that wraps it and the return
+    n = 0
+    for name in ('handle_rpc', 'handle_error'):
+        g = _m(prog, name)
+        for c in calls_in(g.node):
+            if call_name(c) != '_ClosingIterator' or not c.args:
+                continue
+            n += 1
+            src = unparse(c.args[0])
+            rets = [r.lineno for r in walk_no_defs(g.node)
+                    if isinstance(r, ast.Return) and r.lineno >= c.lineno]
+            end = min(rets) if rets else c.lineno
+            reb = []
+            for a in walk_no_defs(g.node):
+                if isinstance(a, (ast.Assign, ast.AugAssign)) and \
+                        c.lineno < a.lineno <= end:
+                    tg = a.targets if isinstance(a, ast.Assign) else \
+                        [a.target]
+                    if any(unparse(t) == src for t in tg):
+                        reb.append(a)
+            where = '%s:%d' % (g.module.relpath, c.lineno)
+            res.ob('R8', where, '%s: iterator over %s created at line %d, '
+                   '%d re-binding(s) of it before the return' % (
+                       name, src, c.lineno, len(reb)),
+                   'VIOLATED' if reb else 'ok')
+            for a in reb:
+                res.finding('R8', 'WsgiApplication.%s|iterator-stale|%s' % (
+                    name, src), '%s:%d' % (g.module.relpath, a.lineno),
+                    '%s wraps %s in the closing iterator and re-binds %s '
+                    'afterwards (line %d): the iterator keeps the old, '
+                    'possibly exhausted object, so the bytes sent differ '
+                    'from those Content-Length was computed over' % (
+                        name, src, src, a.lineno))
+    res.floor('R8', 'closing iterators in handle_rpc/handle_error', n, 2)
+
+
 def run(prog, res, tier):
     res.run_rule(rule_r1, prog, res)
     res.run_rule(rule_r2, prog, res)
@@ -1153,11 +1280,34 @@ def run(prog, res, tier):
     res.run_rule(rule_r5, prog, res)
     res.run_rule(rule_r6, prog, res)
     res.run_rule(rule_r7, prog, res)
+    res.run_rule(rule_r8, prog, res)
 
 
 _W = 'spyne/server/wsgi.py'
 
 MUTANTS = [
+    Mutant('wsdl-context-closed-in-finally', 'R8', 'fire', _W,
+           in_func('WsgiApplication.handle_wsdl_request',
+                   "                self._mtx_build_interface_document."
+                   "release()\n",
+                   "                self._mtx_build_interface_document."
+                   "release()\n                ctx.close()\n"), 'close'),
+    Mutant('wsdl-404-plain-list', 'R8', 'fire', _W,
+           in_func('WsgiApplication.handle_wsdl_request',
+                   "return _ClosingIterator([HTTP_404.encode('ascii')], "
+                   "ctx.close)", "return [HTTP_404.encode('ascii')]"),
+           'close'),
+    Mutant('iterator-before-join', 'R8', 'fire', _W,
+           in_func('WsgiApplication.handle_rpc',
+                   "        if self.chunked:\n",
+                   "        retval = _ClosingIterator(p_ctx.out_string, "
+                   "lambda: self.__finalize(p_ctx))\n"
+                   "        if self.chunked:\n"), 'iterator-stale'),
+    Mutant('redirect-body-as-text', 'R3', 'fire', 'spyne/const/http.py',
+           lambda src: src.replace(
+               "            \".\",\n        )\n    ))",
+               "            \".\",\n        )\n    ), encoding='unicode')"),
+           'chunk'),
     Mutant('wsgi-return-after-length', 'R6', 'fire', _W,
            in_func('WsgiApplication.handle_rpc',
                    r"(        self\.event_manager\.fire_event\('wsgi_return', "
@@ -1208,7 +1358,8 @@ MUTANTS = [
            'handle_wsdl_request'),
     Mutant('wsdl-404-falls-through', 'R1', 'fire', _W,
            in_func('WsgiApplication.handle_wsdl_request',
-                   "            return [HTTP_404.encode('ascii')]\n", "\n"),
+                   "            return _ClosingIterator([HTTP_404.encode("
+                   "'ascii')], ctx.close)\n", "\n"),
            'handle_wsdl_request'),
     Mutant('twin-sr-args-hoisted', 'R1', 'benign', _W,
            in_func('WsgiApplication.handle_error',
@@ -1247,8 +1398,8 @@ MUTANTS = [
     # R3
     Mutant('str-404-body', 'R3', 'fire', _W,
            in_func('WsgiApplication.handle_wsdl_request',
-                   "return [HTTP_404.encode('ascii')]", 'return [HTTP_404]'),
-           'HTTP_404'),
+                   "_ClosingIterator([HTTP_404.encode('ascii')], ctx.close)",
+                   "_ClosingIterator([HTTP_404], ctx.close)"), 'HTTP_404'),
     Mutant('str-joiner', 'R3', 'fire', _W,
            in_func('WsgiApplication.handle_rpc',
                    "[b''.join(p_ctx.out_string)]",
